@@ -94,3 +94,7 @@ func verifMapValue(d verifDoc) []byte  { panic("intrinsic") }
 func verifCollLess(a, b []byte) bool   { panic("intrinsic") } // JSON collation order (uninterpreted)
 func verifAnyJSON(v any) []byte        { panic("intrinsic") }
 func verifSymOnly()                    { panic("intrinsic") } // this harness has no native counterpart
+
+func verifRevidText(rev int64) []byte { panic("intrinsic") } // the text `"<rev>"` as the code formats it
+
+func verifXattrsBlob(name string) []byte { panic("intrinsic") } // arbitrary raw xattrs JSON (may be nil); concretised as a real JSON object
